@@ -51,6 +51,8 @@ type Obligation struct {
 	// for vacuity (expect sat)
 	ExpectSat bool
 	replayConfirmed bool
+	replay *replayResult
+	Clause *SExpr
 	NFacts int
 	Sliced bool
 }
@@ -96,6 +98,7 @@ type loopInfo struct {
 }
 
 type Enc struct {
+	curClause *SExpr
 	w        *World
 	s        *Script
 	obls     []*Obligation
@@ -157,6 +160,7 @@ func (e *Enc) specAssume(st *State, x *SExpr, env *SpecEnv) {
 
 func (e *Enc) specOblige(st *State, kind string, x *SExpr, env *SpecEnv, desc string, props []string) {
 	for _, part := range splitConj(x) {
+		e.curClause = part
 		g := e.evalBool(part, env)
 		for _, f := range e.lastFacts {
 			for _, t := range splitAndTerm(f) {
@@ -175,6 +179,7 @@ func (e *Enc) specOblige(st *State, kind string, x *SExpr, env *SpecEnv, desc st
 			}
 			e.oblige(st, kind, t, d2, props)
 		}
+		e.curClause = nil
 	}
 }
 
@@ -380,7 +385,7 @@ func (e *Enc) oblige(st *State, kind string, goal string, desc string, props []s
 	if len(ps) == 0 {
 		ps = e.props
 	}
-	e.obls = append(e.obls, &Obligation{Name: name, Kind: kind, Hyp: st.reach, NFacts: len(e.facts), Goal: goal, Desc: desc, Props: ps, Fn: e.fnName})
+	e.obls = append(e.obls, &Obligation{Name: name, Kind: kind, Hyp: st.reach, NFacts: len(e.facts), Goal: goal, Desc: desc, Props: ps, Fn: e.fnName, Clause: e.curClause})
 	e.assume(st, goal)
 }
 
@@ -777,6 +782,10 @@ func (e *Enc) strID(s string) string {
 
 func (e *Enc) typeID(t types.Type) string {
 	k := typeKey(t)
+	if e.w.typeByKey == nil {
+		e.w.typeByKey = map[string]types.Type{}
+	}
+	e.w.typeByKey[k] = t
 	id, ok := e.w.typeIDs[k]
 	if !ok {
 		id = len(e.w.typeIDs) + 1
